@@ -79,9 +79,7 @@ def it(cpu, o, row):
 # ---------------------------------------------------------------------------------- exceptions
 @sem('svc')
 def svc(cpu, o, row):
-    if cpu.have_virt() and (cpu.mode == M_HYP or (not cpu.is_secure() and cpu.mode == M_USR and (cpu.s['hcr'] >> 27) & 1)):
-        cpu.unknown.add('hsr')
-    raise RefSVC()
+    raise RefSVC(o['imm32'] & 0xFFFF)
 
 
 @sem('smc')
